@@ -139,6 +139,9 @@ func (e *Engine) typeByName(s string) types.Type {
 		ptr = true
 		s = s[1:]
 	}
+	if s == "interface{}" {
+		return types.NewInterfaceType(nil, nil)
+	}
 	if strings.HasPrefix(s, "map[") && !ptr { // map[K]V
 		depth := 0
 		for k := 3; k < len(s); k++ {
